@@ -157,6 +157,18 @@ fn gen_line(rng: &mut Rng, heavy: bool) -> String {
                 let go = *rng.pick(&["go infinite", "go depth 64", "go"]);
                 return format!("position fen {}\n{}\n", fen, go);
             }
+            if rng.chance(1, 3) {
+                // pondering: the answer may come at once (an engine without pondering) or be
+                // held back until stop / ponderhit; either way the session goes on
+                let mut b = format!("go ponder depth {}\n", rng.range(1, 2));
+                for _ in 0..rng.below(3) {
+                    let m: &str = *rng.pick(&["isready\n", "\n", "xyzzy\n", "isready\n"]);
+                    b.push_str(m);
+                }
+                let e: &str = *rng.pick(&["stop\n", "ponderhit\n", "stop\n"]);
+                b.push_str(e);
+                return b;
+            }
             format!("go depth {}", rng.range(1, 2))
         }
     };
@@ -232,6 +244,22 @@ pub fn gen_script(rng: &mut Rng) -> Scenario {
                 have_pos = true;
             }
         }
+    }
+    // one heavy script in three ends with a pondering block (go ponder, a few other lines,
+    // stop or ponderhit): with the end-of-input enumeration this puts the end of input
+    // between the go ponder and its release
+    if heavy && rng.chance(1, 3) {
+        if !lines.iter().any(|l| l.trim_start().starts_with("position")) {
+            lines.push("position startpos\n".to_string());
+        }
+        let mut b = format!("go ponder depth {}\n", rng.range(1, 2));
+        for _ in 0..rng.below(3) {
+            let m: &str = *rng.pick(&["isready\n", "\n", "xyzzy\n", "isready\n"]);
+            b.push_str(m);
+        }
+        let e: &str = *rng.pick(&["stop\n", "ponderhit\n", "stop\n"]);
+        b.push_str(e);
+        lines.push(b);
     }
     // one script in five switches debug mode on near its start (a GUI's debug check box): an
     // engine in debug mode may explain itself with `info string` lines when it answers a
@@ -330,7 +358,8 @@ fn expectation(lines: &[Option<String>]) -> Expect {
         match first_token(l) {
             "uci" => groups.push("uci"),
             "isready" => groups.push("isready"),
-            "go" => groups.push("go"),
+            "go" => groups.push(if l.split_whitespace().any(|t| t == "ponder") { "go_ponder" } else { "go" }),
+            "stop" | "ponderhit" => groups.push("release"),
             "quit" => {
                 quit_seen = true;
                 break;
@@ -344,6 +373,8 @@ fn expectation(lines: &[Option<String>]) -> Expect {
 /// Matches the output against the expected groups; Err(description) on mismatch.
 fn match_output(out: &[String], exp: &Expect) -> Result<(), String> {
     let mut i = 0;
+    // answers to `go ponder` still held back
+    let mut pending = 0usize;
     for g in &exp.groups {
         match *g {
             "uci" => {
@@ -367,6 +398,30 @@ fn match_output(out: &[String], exp: &Expect) -> Result<(), String> {
                     return Err(format!("isready: expected readyok at output line {}, got {:?}", i, out.get(i)));
                 }
                 i += 1;
+            }
+            "go_ponder" => {
+                // the answer now, or held back until stop / ponderhit (or never, if the
+                // session ends first)
+                while i < out.len() && out[i].starts_with("info") {
+                    i += 1;
+                }
+                if out.get(i).map(|s| s.starts_with("bestmove ")).unwrap_or(false) {
+                    i += 1;
+                } else {
+                    pending += 1;
+                }
+            }
+            "release" => {
+                if pending > 0 {
+                    let mut k = i;
+                    while k < out.len() && out[k].starts_with("info") {
+                        k += 1;
+                    }
+                    if out.get(k).map(|s| s.starts_with("bestmove ")).unwrap_or(false) {
+                        i = k + 1;
+                        pending -= 1;
+                    }
+                }
             }
             _ => {
                 while i < out.len() && out[i].starts_with("info") {
@@ -540,7 +595,7 @@ pub fn replay_value(v: &Value) -> Vec<Violation> {
     if v.get("twin_without_unknown_lines").is_some() {
         let Some(full) = Scenario::from_json(&v["scenario"]) else { return vec![] };
         let all = delivered_lines(&full.all_bytes());
-        let is_cmd = |l: &Option<String>| l.as_deref().map(|x| ["uci", "isready", "ucinewgame", "position", "go", "quit"].contains(&first_token(x))).unwrap_or(false);
+        let is_cmd = |l: &Option<String>| l.as_deref().map(|x| ["uci", "isready", "ucinewgame", "position", "go", "quit", "stop", "ponderhit"].contains(&first_token(x))).unwrap_or(false);
         let mut filtered = full.clone();
         filtered.lines = all.iter().filter(|l| is_cmd(l)).map(|l| format!("{}\n", l.as_deref().unwrap())).collect();
         let ra = run_scenario(&full, false);
@@ -785,6 +840,9 @@ pub fn run(ctx: &Ctx) -> i32 {
         let mut res = SimResult::default();
         let mut log_hash = crate::rng::FNV_INIT;
         let shape = script_shape(&base);
+        if base.lines.iter().any(|l| l.contains("go ponder")) {
+            res.probes.add("scripts_with_go_ponder", 1);
+        }
         let heavy = base.lines.iter().any(|l| {
             let t = first_token(l.trim());
             t == "position" || t == "go" || t == "ucinewgame"
@@ -841,7 +899,7 @@ pub fn run(ctx: &Ctx) -> i32 {
         // the same answers (only scripts that search; searches are depth-limited)
         if heavy {
             let all = delivered_lines(&base.all_bytes());
-            let is_cmd = |l: &Option<String>| l.as_deref().map(|x| ["uci", "isready", "ucinewgame", "position", "go", "quit"].contains(&first_token(x))).unwrap_or(false);
+            let is_cmd = |l: &Option<String>| l.as_deref().map(|x| ["uci", "isready", "ucinewgame", "position", "go", "quit", "stop", "ponderhit"].contains(&first_token(x))).unwrap_or(false);
             if all.iter().any(|l| !is_cmd(l)) {
                 let mut full = base.clone();
                 full.cut = None;
@@ -915,6 +973,21 @@ pub fn run(ctx: &Ctx) -> i32 {
             for w in toks.windows(3) {
                 if w[0] == "position" && w[2] == "go" && !["uci", "isready", "ucinewgame", "position", "go", "quit"].contains(&w[1]) {
                     res.probes.add("unknown_line_between_position_and_go", 1);
+                }
+            }
+            if sc.cut.is_some() {
+                // input ending while an answer to `go ponder` may still be held back
+                let d = delivered_lines(&delivered);
+                let mut waiting = false;
+                for l in d.iter().flatten() {
+                    match first_token(l) {
+                        "go" => waiting = l.split_whitespace().any(|t| t == "ponder"),
+                        "stop" | "ponderhit" | "quit" => waiting = false,
+                        _ => {}
+                    }
+                }
+                if waiting {
+                    res.probes.add("input_ended_between_go_ponder_and_stop_or_ponderhit", 1);
                 }
             }
             match &r.outcome {
